@@ -576,10 +576,17 @@ func init() {
 				}
 				if site, ok := in.(ssa.CallInstruction); ok {
 					n := calleeName(site.Common())
-					if n == "strings.ContainsAny" || n == "strings.IndexAny" || n == "strings.ContainsRune" || n == "strings.IndexByte" {
-						if s, ok := constString(site.Common().Args[1]); ok {
-							for i := 0; i < len(s); i++ {
-								have[s[i]] = true
+					if n == "strings.ContainsAny" || n == "strings.IndexAny" || n == "strings.ContainsRune" || n == "strings.IndexByte" || n == "strings.IndexRune" || n == "bytes.IndexByte" || n == "bytes.ContainsAny" || n == "bytes.IndexAny" {
+						// the set of accepted characters is a constant: the second argument of ContainsAny(s, set), or the
+						// haystack of IndexByte(set, c)
+						for _, a := range site.Common().Args {
+							if cv, ok := a.(*ssa.Convert); ok {
+								a = cv.X
+							}
+							if s, ok := constString(a); ok {
+								for i := 0; i < len(s); i++ {
+									have[s[i]] = true
+								}
 							}
 						}
 					}
@@ -706,6 +713,10 @@ func copiesAttrs(p *Prog, fn *ssa.Function, seen map[*ssa.Function]bool) bool {
 					return
 				}
 			}
+		}
+		if cl, ok := st.Val.(*ssa.Call); ok && strings.HasPrefix(calleeName(&cl.Call), "slices.Clone") {
+			copies = true // slices.Clone(src.Attr): a fresh backing array
+			return
 		}
 		if cl := isCallNamed(st.Val, "builtin.append"); cl != nil {
 			base := cl.Call.Args[0]
